@@ -25,8 +25,16 @@ def _parse(fmt):
         fmt = fmt[1:]
     if order == "@":
         # native alignment: rig only uses it for "4B"; refuse anything that
-        # would need padding
-        if any(c in fmt for c in "HhIiLlQq"):
+        # would need padding.  A single H/h/I/i item (rig's
+        # get_processor_status unpacks each vcpu field with its bare pack
+        # character) has no padding and the standard size; on a little-endian
+        # host -- asserted -- native order is "<".
+        single = re.fullmatch(r"\s*1?[HhIi]\s*", fmt) is not None
+        if single:
+            import sys
+            if sys.byteorder != "little":
+                raise Unsupported("native struct format on a big-endian host")
+        elif any(c in fmt for c in "HhIiLlQq"):
             raise Unsupported("native-aligned struct format %r" % fmt)
         order = "<"
     little = order in "<="
